@@ -48,7 +48,8 @@ def main():
         is_sh = demo_name.endswith(".sh")
         def run_demo():
             if is_sh:
-                return sh(f"bash {os.path.join(out, demo_name)}", cwd=wt)
+                # shell demonstrations take the crate directory as their argument (default: the author's worktree)
+                return sh(f"bash {os.path.join(out, demo_name)} {wt}", cwd=wt)
             os.makedirs(os.path.join(wt, "tests"), exist_ok=True)
             shutil.copy(os.path.join(out, demo_name), os.path.join(wt, "tests", "seed_demo.rs"))
             r = sh(f"cargo test --offline {demo_flags} --test seed_demo 2>&1 | tail -15", cwd=wt)
